@@ -30,6 +30,25 @@ BARE_TRIPLES = [(m, f, s) for m in ('KC-BARE', 'CTD', 'UCTD')
 
 TDEP_NA = 'sodium_se2anl'     # built-in polynomial, T-dependent
 TDEP_STEEL = 'ht9'
+# built-in temperature-dependent coolants: name -> (density, heat capacity)
+# used only to size flow rates and powers
+COOLANTS = {'sodium_se2anl': (850.0, 1274.0), 'sodium': (850.0, 1274.0),
+            'lead': (10400.0, 146.0), 'lbe': (10100.0, 145.0),
+            'potassium': (740.0, 770.0), 'nak': (780.0, 900.0)}
+
+
+def pick_coolant(rng, P, tdep, heavy=0.25):
+    """Choose the coolant material; heavy liquid metals and other alkalis
+    with probability `heavy` among the temperature-dependent cases."""
+    if not tdep:
+        P['coolant'] = 'na_const'
+        return 'na_const'
+    name = TDEP_NA
+    if rng.random() < heavy:
+        name = choose(rng, ['lead', 'lbe', 'potassium', 'nak', 'sodium'])
+    P['coolant'] = name
+    P['coolant_rho_cp'] = COOLANTS[name]
+    return name
 
 
 def loguniform(rng, lo, hi):
@@ -128,7 +147,8 @@ def random_power(rng, P, max_cells=4, max_order=3, aligned=True):
 
 def single_assembly(rng, tdep=None, gap=None, lf=None, regions=None,
                     max_rings=7, length=None, vel=None, n_duct=None,
-                    nr=None, corr=None, conv_approx=None, byp=None):
+                    nr=None, corr=None, conv_approx=None, byp=None,
+                    coolant_pool=False, bc=None):
     """One assembly at the core centre."""
     tdep = (rng.random() < 0.3) if tdep is None else tdep
     L = length if length is not None else float(choose(rng, [0.5, 1.0, 2.0]))
@@ -138,6 +158,8 @@ def single_assembly(rng, tdep=None, gap=None, lf=None, regions=None,
                          coolant=(TDEP_NA if tdep else 'na_const'),
                          bypass_fraction=(0.0 if gap == 'none' else
                                           loguniform(rng, 0.003, 0.1)))
+    if coolant_pool:
+        pick_coolant(rng, P, tdep)
     ftf_o = 0.1175 - (0.0 if rng.random() < 0.7 else rng.uniform(0, 0.003))
     t = random_type(rng, ftf_o, nr=nr, n_duct=n_duct, tdep=tdep,
                     max_rings=max_rings, corr=corr, byp=byp)
@@ -169,7 +191,9 @@ def single_assembly(rng, tdep=None, gap=None, lf=None, regions=None,
             'axial': [float(x) for x in rng.uniform(0.2, 1.5, nc)]}
     if nc > 1 and rng.random() < 0.3:
         spec['zero_cells'] = [int(rng.integers(nc))]
-    gen.add_position(P, 'a', 1, 1, velocity=v, dT=dT, shape=shape, **spec)
+    gen.add_position(P, 'a', 1, 1, velocity=v, dT=dT, shape=shape,
+                     bc=(bc or 'flowrate'), **spec)
+    feats['coolant'] = P['coolant']
     feats['shape'] = shape
     feats['comps'] = comps
     # options
@@ -193,16 +217,20 @@ def cap_steps(P, r_or_none=None, max_steps=4000):
 
 def core_problem(rng, n_ring=2, n_types=None, tdep=False, gap='flow',
                  empty_frac=0.0, max_rings=5, length=None, lf_frac=0.15,
-                 regions_frac=0.2, dd_frac=0.3, vel_range=(0.05, 6.0)):
+                 regions_frac=0.2, dd_frac=0.3, vel_range=(0.05, 6.0),
+                 coolant_pool=False, bc_kinds=('flowrate',),
+                 own_power_mesh=0.0, shared_flow=0.0):
     """Multi-assembly core on n_ring hex rings with 1..3 assembly types."""
     L = length if length is not None else float(choose(rng, [0.5, 1.0]))
     P = gen.base_problem(length=L, asm_pitch=0.12, gap_model=gap,
                          coolant=(TDEP_NA if tdep else 'na_const'),
                          bypass_fraction=(0.0 if gap == 'none' else
                                           loguniform(rng, 0.003, 0.15)))
+    if coolant_pool:
+        pick_coolant(rng, P, tdep)
     n_types = n_types or int(rng.integers(1, 4))
     names = []
-    feats = {'types': [], 'gap': gap, 'tdep': tdep}
+    feats = {'types': [], 'gap': gap, 'tdep': tdep, 'coolant': P['coolant']}
     for i in range(n_types):
         nm = 't%d' % i
         nd = 2 if rng.random() < dd_frac else 1
@@ -220,18 +248,30 @@ def core_problem(rng, n_ring=2, n_types=None, tdep=False, gap='flow',
         feats['types'].append((t['num_rings'], nd,
                                bool(t.get('use_low_fidelity_model')),
                                sorted(t.get('AxialRegion', {}))))
-    random_power(rng, P, max_cells=3, max_order=2)
+    zb = random_power(rng, P, max_cells=3, max_order=2)
     npos = 3 * (n_ring - 1) * n_ring + 1
     filled = 0
+    v_shared = loguniform(rng, *vel_range)
     for k0 in range(npos):
         if k0 > 0 and rng.random() < empty_frac:
             continue
         ring, pos = gen.ring_pos(k0)
         tn = choose(rng, names)
         v = loguniform(rng, *vel_range)
+        if rng.random() < shared_flow:
+            v = v_shared          # same type + same flow, different power
+        extra = {}
+        if own_power_mesh and len(zb) > 2 and rng.random() < own_power_mesh:
+            # same number of axial power cells and height, other interior
+            # boundaries (per-assembly power mesh)
+            inner = np.unique(np.round(rng.uniform(0.1, 0.9, len(zb) - 2)
+                                       * L, 3))
+            if len(inner) == len(zb) - 2:
+                extra['zb'] = [0.0] + [float(x) for x in inner] + [L]
         gen.add_position(P, tn, ring, pos, velocity=v,
                          dT=float(rng.uniform(10, 120)),
-                         shape=choose(rng, ['rand', 'flat', 'hotpin']))
+                         shape=choose(rng, ['rand', 'flat', 'hotpin']),
+                         bc=choose(rng, list(bc_kinds)), **extra)
         filled += 1
     feats['n_asm'] = filled
     feats['n_pos'] = npos
